@@ -8,6 +8,7 @@ from .. import paths, waiters
 from ..core import FUNC, call_attr, calls_in, const, dotted, kwarg, is_const, norm, text, walk_local
 
 EXPLANATION = [
+    "C09.waiter-scope: every cancel-on-disconnection wrapper in bumble.l2cap is tied to the operation's own connection (connection.cancel_on_disconnection, or cancel_on_event on the connection / channel), never to the host-wide disconnection event.",
     'C09.unordered-pairing: no zip() / enumerate() pairs positions with a set (literal, comprehension, set() call or a name bound only to such): the order of a set is arbitrary.',
     'C09.one-shot: no name bound to a generator expression or to filter() / map() / zip() / reversed() / enumerate() is read in more than one consuming position or inside a loop that evaluates it repeatedly: such an iterator is empty after its first walk.',
     "C09.identity: no `is` / `is not` comparison in the anchored modules has an operand declared as a number, byte string or string (identity of equal integers holds only inside CPython's small-integer cache, so such a test is right for values up to 256 and wrong afterwards).",
@@ -982,7 +983,31 @@ def unordered_pairing_rule(ctx):
     unordered_pairing(ctx, 'C09.unordered-pairing', ['bumble.l2cap'])
 
 
+def waiter_scope(ctx):
+    """A channel operation is cancelled by the loss of *its* link: the cancel helper is the connection's
+    cancel_on_disconnection, or cancel_on_event on the connection / channel -- not on the host, whose 'disconnection'
+    event fires for every link."""
+    R, p = ctx.r, ctx.p
+    rule = 'C09.waiter-scope'
+    m = p.modules.get('bumble.l2cap')
+    if m is None:
+        R.bad(rule, 'bumble.l2cap', 'anchor missing')
+        return
+    n = 0
+    for c in [x for x in ast.walk(m.tree) if isinstance(x, ast.Call) and call_attr(x) in ('cancel_on_disconnection', 'cancel_on_event')]:
+        n += 1
+        if call_attr(c) == 'cancel_on_disconnection':
+            recv = dotted(c.func.value) or ''
+            ok = recv.split('.')[-1] == 'connection'
+        else:
+            em = dotted(c.args[0]) if c.args else ''
+            ok = (em or '').split('.')[-1] in ('connection', 'self', 'channel')
+        R.check(ok, rule, f'{p.qual_of(c)} | {norm(c)[:60]}', 'scoped to the operation\'s own connection', f'`{norm(c)[:80]}` ties the wait to an emitter that reports every link (the host): the loss of another link cancels an operation on this one, leaving the two ends of the channel in different states', f'{m.rel}:{c.lineno}')
+    R.check(n >= 3, rule, 'bumble.l2cap | cancel helpers', f'{n} waits tied to a connection', f'only {n} found')
+
+
 RULES = [
+    ('C09.waiter-scope', waiter_scope),
     ('C09.unordered-pairing', unordered_pairing_rule),
     ('C09.one-shot', one_shot_rule),
     ('C09.identity', identity_rule),
